@@ -5596,7 +5596,12 @@ class Device(utils.CompositeEventEmitter):
         self.emit(self.EVENT_FLUSH)
         for _, connection in self.connections.items():
             connection.emit(connection.EVENT_DISCONNECTION, 0)
+
+            # Cleanup subsystems that maintain per-connection state
+            self.gatt_server.on_disconnection(connection)
         self.connections = {}
+        self.sco_links = {}
+        self.cis_links = {}
 
     # [Classic only]
     @host_event_handler
